@@ -40,9 +40,19 @@ func run(prop string) {
 		runC06()
 	case "C02":
 		runDuplicateAck()
+	case "C18":
+		if simrt.Chance(1, 2, "raw-upload") {
+			runRawUpload()
+		} else {
+			runForeignClose()
+		}
 	case "C03", "C04", "C07", "C16", "C17":
 		if prop == "C16" && simrt.Chance(1, 8, "udp-association-churn") {
 			runUDPAssociationChurn()
+			return
+		}
+		if prop == "C16" && simrt.Chance(1, 10, "foreign-close") {
+			runForeignClose()
 			return
 		}
 		if prop == "C04" && simrt.Chance(1, 8, "transit-fallback") {
